@@ -115,9 +115,17 @@ def gen_device(rng: random.Random, xy=False, focus=None):
     )
 
 
+# set by harness/seqprop.py (the sequence properties' own generator settings; other users of
+# this module keep string ids and list-valued targets)
+INT_IDS_RATE = 0.0
+SCALAR_TARGET_RATE = 0.0
+
+
 def gen_register(rng: random.Random):
     n = rng.choice([1, 2, 3, 4])
     ids = [f"q{i}" for i in range(n)]
+    if INT_IDS_RATE and rng.random() < INT_IDS_RATE:
+        ids = list(range(n))  # the default ids of Register.from_coordinates / square / ...
     rng.shuffle(ids)
     coords = [[10.0 * i, 0.0] for i in range(n)]
     return dict(ids=ids, coords=coords)
@@ -299,6 +307,8 @@ def gen_ops(rng: random.Random, case, n_ops: int, invalid_rate: float, query_rat
                 it = it + ["ghost"]
         if spec and spec["addressing"] == "Global" and rng.random() < 0.03:
             it = qsubset()
+        if it is not None and len(it) == 1 and SCALAR_TARGET_RATE and rng.random() < SCALAR_TARGET_RATE:
+            it = it[0]  # a bare qubit id is accepted wherever a collection of ids is
         return dict(op="declare", name=name, channel_id=cid, initial_target=it)
 
     def pulse_for(obj, big=False):
@@ -436,7 +446,10 @@ def gen_ops(rng: random.Random, case, n_ops: int, invalid_rate: float, query_rat
             continue
         local = spec["addressing"] == "Local"
         if local and name in live.seq._schedule and not live.has_target(name) and rng.random() < 0.8:
-            emit(dict(op="target", qubits=qsubset(spec["max_targets"]), channel=name))
+            qs_ = qsubset(spec["max_targets"])
+            if len(qs_) == 1 and SCALAR_TARGET_RATE and rng.random() < SCALAR_TARGET_RATE:
+                qs_ = qs_[0]
+            emit(dict(op="target", qubits=qs_, channel=name))
             continue
         kind = rng.choices(wkeys, wvals)[0]
         if kind == "add":
